@@ -31,6 +31,27 @@ CLAIMED = {
             "time average). Every run: double-ended fibres, rows/optimum/covariance/p_val/p_cov/tmpf/tmpb vs the model; with the "
             "solver replaced by a tagged stub every reduced parameter, variance and covariance must sit at its documented index.",
             NOTE + WLSNOTE + "With splices only the weighted SSR (estimable) is compared.", "§8 C02"),
+    "C04": ("Lean 4: bijection of the documented layouts onto [0, npar) for all sizes + equation theorems; exhaustive layout/tagged-external correspondence and bit-exact external round trips",
+            "Proof: C04_layout_partition_double / _single (every parameter has exactly one slot, for all nt, nx, nta), "
+            "C04_model_columns_* (the model's columns are those slots; splice index = F-order reshape), C04_tmpf_equation_double, "
+            "C04_tmpb_equation, C04_splice_mask. Every run: for all (nt, nx <= 6 quick / 8 thorough, nta <= 3) x {single, single "
+            "alpha-mode, double} the ParameterIndex tables vs the model vs the docstring, a method='external' run with distinct "
+            "p_val/p_cov entries whose named outputs, *_var and tmpf/tmpb must come from the documented slots; wls results fed back "
+            "through method='external' must reproduce every data variable bit for bit.",
+            NOTE, "§8 C04"),
+    "C05": ("Lean 4 (Mathlib, over R and any field): HasDerivAt facts of the temperature equation; ring identities term-list = J Sigma J^T; refutations for the omitted cross terms; term-by-term exact correspondence",
+            "Proof: C05_derivs_fw, C05_deriv_alpha_bw, C05_deriv_dalpha (the derivative dictionary is the derivative, through "
+            "Real.log), C05_channel_is_propagation, C05_single_is_propagation (12 terms = measurement part + J^T Sigma J), "
+            "C05_tmpw_accounting / _partial, C05_tmpw_is_propagation_refuted and C05_two_splices_refuted (registered known "
+            "findings). Every run: each component of var_fw_da / var_bw_da / var_w_da vs the model's term lists evaluated in exact "
+            "rationals on the result's own p_val/p_cov (wls results and external results with random positive-definite p_cov); "
+            "independent analytic-Jacobian oracle with all cross terms.",
+            NOTE + "p_var fed to the model is diag(p_cov).", "§8 C05"),
+    "C06": ("Lean 4 (ordered fields): convex-combination / betweenness / bound-ordering inequalities; correspondence of tmpw, approx, lower, tmpw_var",
+            "Proof: C06_tmpw_formula, C06_tmpw_between, C06_approx_le_min, convex_combo_lower, C06_lower_le_var (for a positive "
+            "semi-definite parameter part), C06_channel_var_positive. Every run: tmpw, tmpw_var_approx, tmpw_var_lower, tmpw_var of "
+            "double-ended results vs the exact model; the formulas and inequalities evaluated on the real outputs.",
+            NOTE + "Positivity with a float p_cov and the incomplete term lists with splices (known finding) are observed, not proved.", "§8 C06"),
     "C07": ("Lean 4: fixed-parameter reduction identity, reported-as-supplied theorem, positivity of the inflated variance; correspondence of the reduced system for every fix_* combination",
             "Proof: C07_fixed_reported, C07_reduction (wssr_fixed_reduction), C07_fixed_not_active, C07_weights_positive_spec, "
             "C07_reduceObs_single. Every run: C01/C02 generator x {fix_gamma, fix_dalpha, fix_alpha, fix_alpha+fix_gamma} x variance "
